@@ -29,7 +29,8 @@ GInit == Init /\ hist = <<>> /\ pre = <<>>
 
 \* relayed streams are injected where they can be forwarded (a neighbour or some route to the destination)
 InjectUseful == last'.op = "inject" =>
-                  LET m == last'.m IN m.dest \in Nbrs(m.to) \/ st[m.to].tb.routes[m.dest] # <<>>
+                  LET m == last'.m IN \/ (m.dest \notin Nbrs(m.to) /\ st[m.to].tb.routes[m.dest] # <<>>)
+                                       \/ (m.dest \in Nbrs(m.to) /\ nfinds = 0)
 
 GNext == /\ Len(hist) < Depth
          /\ Next
